@@ -62,7 +62,7 @@ def C02(tier):
              hq("serial", 10 * m, first=300, ncpu=4)]
     jobs += spread(hq, "pingpong", 24 * m, 3, )
     jobs += spread(hq, "mixed", 16 * m, 2)
-    jobs += [hq("window", 16 * m, first=0)]
+    jobs += [hq("window", 16 * m, first=0), hq("window3", 16 * m, first=0), hq("window3", 8 * m, first=100, ncpu=2)]
     jobs += [Job("hooks", "h_mainq", ["--trials=%d" % (2 * m)], timeout=300, tag="h_mainq")]
     jobs += [hq("serial", 6 * m, first=900, flavor="tsan", scale=25, timeout=900, perturb="uniform"),
              hq("pingpong", 4 * m, first=950, flavor="tsan", scale=25, timeout=900, perturb="uniform")]
@@ -76,6 +76,7 @@ def C02(tier):
         "site:_dispatch_queue_try_acquire_barrier_sync_and_suspend:3": 1000,  # sync fast path attempted
         "site:_dispatch_lane_drain_barrier_waiter:3": 1000,
         "mainq_items": 10000,
+        "window3_schedule_reached": 16,
     }
     rule = ("one case = one trial of N client threads using every submission API (async/sync/barrier_*/async_and_wait, block and "
             "_f forms) on 1-3 serial queues (plus the main queue in h_mainq) under a drawn perturbation profile and affinity mask; "
@@ -118,7 +119,7 @@ def C04(tier):
     jobs += spread(hq, "barrier", 40 * m, 4)
     jobs += [hq("barrier", 8 * m, first=100, ncpu=1, scale=40), hq("barrier", 8 * m, first=200, ncpu=2, scale=60), hq("barrier", 10 * m, first=300, ncpu=4)]
     jobs += spread(hq, "mixed", 16 * m, 2)
-    jobs += [hq("gate", 30 * m, first=0, extra=["--gate-conc=1"]), hq("window", 16 * m, first=0)]
+    jobs += [hq("gate", 30 * m, first=0, extra=["--gate-conc=1"]), hq("window", 16 * m, first=0), hq("window3", 16 * m, first=0)]
     jobs += [hq("barrier", 6 * m, first=900, flavor="tsan", scale=25, timeout=900, perturb="uniform")]
     if tier == "thorough":
         for t in jobs:
@@ -130,6 +131,7 @@ def C04(tier):
         "site:_dispatch_queue_try_upgrade_full_width:3": 1000,
         "site:_dispatch_lane_non_barrier_complete:3": 10000,
         "site:_dispatch_queue_try_reserve_sync_width:3": 1000,
+        "window3_schedule_reached": 8,
     }
     rule = ("one case = one trial of reader/barrier mixes (async, sync, barrier_async, barrier_sync, (barrier_)async_and_wait, "
             "group_async; block and _f forms) on 1-2 concurrent queues under a perturbation profile and affinity mask; oracle: "
